@@ -447,6 +447,8 @@ package kcp
 //@ func KCP.Input
 //@   callsite KCP.parse_data requires @C11 [only-segments-of-this-conversation-are-processed] le32(data, 0 - 24) == kcp.conv
 //@   callsite KCP.parse_una requires @C11 [only-segments-of-this-conversation-are-processed] le32(data, 0 - 24) == kcp.conv
+//@   callsite KCP.parse_data requires @C01 @C09 [segment-handed-to-the-receive-side-is-the-one-on-the-wire] newseg.sn == le32(data, 0 - 12) && newseg.frg == data[0 - 19]
+//@        && len(newseg.data) == le32(data, 0 - 4) && ref(newseg.data) == ref(data) && off(newseg.data) == off(data)
 //@   callsite KCP.parse_una requires @C09 [una-read-from-its-wire-offset] una == le32(data, 0 - 8)
 //@   callsite KCP.parse_ack requires @C09 [sn-read-from-its-wire-offset] sn == le32(data, 0 - 12)
 //@   callsite KCP.ack_push requires @C09 [sn-and-ts-read-from-their-wire-offsets] sn == le32(data, 0 - 12) && ts == le32(data, 0 - 16)
